@@ -225,6 +225,8 @@ def run(ctx):
         kind = rng.choice(['time_shift', 'order', 'rate', 'class', 'chan_bw', 'freq_shift', 'offaxis_start', 'offaxis_labels', 'empty', 'freq_on_signal'])
         if kind in ('chan_bw', 'freq_shift', 'offaxis_labels') and not isinstance(z, pb.RadioSignal):
             z = base(cls=rng.choice(X.RADIO), L=rng.randint(4, 60))
+        if kind == 'chan_bw' and rng.random() < 0.5 and not isinstance(z, pb.BasebandSignal):
+            z = z[:, :1]          # a single channel: its label does not depend on chan_bw, only the chan_bw test can refuse
         if kind == 'freq_on_signal':
             z = base(cls='Signal', L=rng.randint(2, 20))
         if z.start_time is None:
